@@ -246,7 +246,7 @@ var c14Records = []c14Val{
 }
 
 func C14_Jobs() []string {
-	return append([]string{"flat/json", "flat/zhttp-json", "flat/form", "flat/query", "flat/env", "nested/json", "nested/zhttp-json", "nested/form", "nested/query", "nested/env"}, c14SymJobs()...)
+	return append([]string{"flat/json", "flat/zhttp-json", "flat/form", "flat/query", "flat/env", "nested/json", "nested/zhttp-json", "nested/form", "nested/query", "nested/env", "flat/sequence", "flat/zhttp-json-param"}, c14SymJobs()...)
 }
 func C14_Covers() []string { return []string{"clean-record", "failing-record"} }
 
@@ -279,8 +279,22 @@ func C14_Run(job string) {
 		c14Sym(b)
 		return
 	}
-	nested := a == "nested"
+	if b == "sequence" {
+		// the same struct type parsed through several front ends in one process, in every order:
+		// each view must still equal the map view
+		order := [][]string{{"json", "form", "env"}, {"form", "env", "json"}, {"env", "json", "query"}, {"query", "json", "form"}, {"json", "env", "query"}, {"env", "form", "json"}}[v.Choice("order", 6)]
+		for _, fe := range order {
+			c14One("flat", fe, c14Records[0])
+			c14One("flat", fe, c14Records[1])
+		}
+		return
+	}
 	rec := c14Records[v.Choice("record", len(c14Records))]
+	c14One(a, b, rec)
+}
+
+func c14One(a, b string, rec c14Val) {
+	nested := a == "nested"
 	v.MapOrderChoice(false)
 	schema := c14Schema()
 	if !nested {
@@ -318,7 +332,7 @@ func C14_Run(job string) {
 	var rename func(string) string
 	q := func(s string) string { return `"` + s + `"` }
 	switch b {
-	case "json", "zhttp-json":
+	case "json", "zhttp-json", "zhttp-json-param":
 		var fields []string
 		add := func(k, val string) {
 			if val != "" {
@@ -343,9 +357,13 @@ func C14_Run(job string) {
 		if doc == "{}" {
 			doc = `{"unrelated":1}` // the empty object is C15's subject
 		}
-		if b == "json" {
+		switch b {
+		case "json":
 			errs = schema.Parse(zjson.Decode(strings.NewReader(doc)), &d)
-		} else {
+		case "zhttp-json-param":
+			ct := []string{"application/json;charset=UTF-8", "application/json; charset=utf-8", "application/json;"}[v.Choice("ct", 3)]
+			errs = schema.Parse(zhttp.Request(c11Request("PUT", ct, doc, "")), &d)
+		default:
 			errs = schema.Parse(zhttp.Request(c11Request("POST", "application/json", doc, "")), &d)
 		}
 		rename = func(k string) string {
